@@ -7,7 +7,9 @@ import ast
 
 from tiv.astutil import body_walk, call_name, dotted, enclosing_stmt, norm, short, stores_in, walk_local
 from tiv.match import find_stmts, match_expr, match_stmt
+from tiv.affine import NotPoly, equal, parse
 from tiv.mutate import M
+from tiv.sem import trace, expand, cx, econds, specialize
 
 RULES = {
     "R1": "rows() announces what render() produces: for a flow widget both derive the height from the same inputs by the same decision "
@@ -21,32 +23,68 @@ RULES = {
 UW, CM = "widget/_urwid.py", "image/common.py"
 
 
+def _e0(e):
+    """entry-value symbols (`size__0`: the parameter before it is rebound) written as the parameter itself"""
+    from tiv.astutil import clone
+    e = clone(e)
+    for n in ast.walk(e):
+        if isinstance(n, ast.Name) and n.id.endswith("__0"):
+            n.id = n.id[:-3]
+    return e
+
+
+def _ec(fn, n):
+    return {c.replace("__0", "") for c in econds(fn, n)}
+
+
+def _psub(e):
+    """`(a if c else b)[i]` -> `a[i] if c else b[i]` (recursively)."""
+    from tiv.astutil import clone
+
+    class T(ast.NodeTransformer):
+        def visit_Subscript(self, n):
+            self.generic_visit(n)
+            if isinstance(n.value, ast.IfExp):
+                v = n.value
+                return self.visit(ast.IfExp(test=v.test, body=ast.Subscript(value=v.body, slice=n.slice, ctx=ast.Load()), orelse=ast.Subscript(value=v.orelse, slice=n.slice, ctx=ast.Load())))
+            return n
+    return T().visit(clone(e))
+
+
 def run(ck, m):
     rd = m.get(UW, "UrwidImage.render")
     rw = m.get(UW, "UrwidImage.rows")
     # ---- R1 ----------------------------------------------------------------------------
-    flow = next((s for s in body_walk(rd) if isinstance(s, ast.If) and norm(s.test) == "len(size) == 1"), None)
+    # rows(size) must be the height of the size render(size) gives the image in a flow layout. Both are compared as traced
+    # expressions (locals and extracted helpers gone), case by case (FIT / AUTO), with `(a if c else b)[i]` distributed.
+    FLOW, FIT = "len(size) == 1", "self._ti_sizing is Size.FIT"
+    sets = [c for c in body_walk(rd) if isinstance(c, ast.Call) and isinstance(c.func, ast.Attribute) and c.func.attr == "set_size" and {FLOW, FIT} <= _ec(rd, c)]
+    stores_ = [st for t, st in stores_in(ast.Module(body=rd.body, type_ignores=[])) if isinstance(t, ast.Attribute) and t.attr == "_size" and isinstance(st, ast.Assign) and {FLOW, f"not {FIT}"} <= _ec(rd, st)]
+    ck.expect(len(sets) == 1 and len(stores_) == 1, f"UrwidImage.render: flow FIT `set_size(..)` / AUTO `<image>._size = ..` not recognised ({len(sets)}, {len(stores_)})")
+    rret = [r for r in body_walk(rw) if isinstance(r, ast.Return) and r.value is not None]
+    ck.expect(len(rret) >= 1, "UrwidImage.rows: return not found")
+    if len(sets) == 1 and len(stores_) == 1 and rret:
+        KEEP = ("size",)
+        fit_arg = [norm(_e0(trace(rd, a_))) for a_ in sets[0].args]
+        ck.ob("R1", enclosing_stmt(sets[0]), fit_arg == ["size[0]"] and norm(trace(rd, sets[0].func.value)) == "self._ti_image", f"render (FIT): must set the size from the given width; found set_size({fit_arg})", stmt="render[FIT]: image.set_size(size[0])")
+        auto_v = _psub(_e0(trace(rd, stores_[0].value)))
+        want_auto = "self._ti_image._valid_size(Size.ORIGINAL) if self._ti_image._valid_size(Size.ORIGINAL)[0] <= self._ti_image._valid_size(size[0])[0] and self._ti_image._valid_size(Size.ORIGINAL)[1] <= self._ti_image._valid_size(size[0])[1] else self._ti_image._valid_size(size[0])"
+        ck.ob("R1", stores_[0], cx(auto_v) == cx(ast.parse(want_auto, mode="eval").body), f"render (AUTO): the image gets its ORIGINAL size if that fits into the FIT size for the given width, else the FIT size; found `{norm(auto_v)[:140]}`",
+              stmt="render[AUTO]: ORIGINAL if it fits else FIT")
+        for r in rret:
+            rv = _psub(_e0(trace(rw, r.value)))
+            cds = _ec(rw, r)
+            for fit_case in (True, False):
+                if (FIT in cds and not fit_case) or (f"not {FIT}" in cds and fit_case):
+                    continue
+                got = _psub(specialize(rv, {FIT: fit_case}))
+                want_ = ast.parse("self._ti_image._valid_size(size[0])[1]", mode="eval").body if fit_case else _psub(ast.Subscript(value=auto_v, slice=ast.Constant(value=1), ctx=ast.Load()))
+                ck.ob("R1", r, cx(got) == cx(want_), f"rows() [{'FIT' if fit_case else 'AUTO'}] must announce the height of the size render() sets: expected `{norm(want_)[:110]}`, found `{norm(got)[:110]}`",
+                      stmt=f"rows/render agree [{'FIT' if fit_case else 'AUTO'}]")
+    flow = next((s for s in body_walk(rd) if isinstance(s, ast.If) and norm(_e0(expand(rd, s.test))) == FLOW), None)
     ck.need(flow is not None, "UrwidImage.render: flow branch not found")
-    fit_if = next((s for s in flow.body if isinstance(s, ast.If) and norm(s.test) == "self._ti_sizing is Size.FIT"), None)
-    ck.need(fit_if is not None and fit_if.orelse, "UrwidImage.render: FIT / AUTO decision not found")
-    r_fit = [norm(s) for s in fit_if.body]
-    ck.ob("R1", fit_if, r_fit == ["image.set_size(size[0])"], f"render (FIT): must set the size from the given width; found {r_fit}", stmt="render[FIT]: image.set_size(size[0])")
-    def decide(stmts, tail):
-        fs = next((norm(s.value) for s in stmts if isinstance(s, ast.Assign) and norm(s.targets[0]) == "fit_size"), None)
-        os_ = next((norm(s.value) for s in stmts if isinstance(s, ast.Assign) and norm(s.targets[0]) == "ori_size"), None)
-        ie = next((s.value for s in stmts if isinstance(s, ast.Assign) and isinstance(s.value, ast.IfExp)), None)
-        return fs, os_, (norm(ie.test) if ie is not None else None), (norm(ie.body) if ie is not None else None), (norm(ie.orelse) if ie is not None else None)
-    rf, ro, rc, rb, re_ = decide(fit_if.orelse, None)
-    rows_if = next((s for s in rw.body if isinstance(s, ast.If) and norm(s.test) == "self._ti_sizing is Size.FIT"), None)
-    ck.need(rows_if is not None, "UrwidImage.rows: decision not found")
-    wf, wo, wc, wb, we = decide(list(rw.body) + list(rows_if.orelse), None)
-    ck.ob("R1", rows_if, rf == wf == "self._ti_image._valid_size(size[0])" and ro == wo == "self._ti_image._valid_size(Size.ORIGINAL)",
-          f"rows() and render() must size from the same inputs; render: fit={rf}, ori={ro}; rows: fit={wf}, ori={wo}", stmt="rows/render: same _valid_size inputs")
-    ck.ob("R1", rows_if, rc == wc and rc is not None, f"rows() and render() decide ORIGINAL-vs-FIT differently: render `{rc}` vs rows `{wc}`", stmt="rows/render: same ORIGINAL-fits test")
-    ck.ob("R1", rows_if, (rb, re_) == ("ori_size", "fit_size") and (wb, we) == ("ori_size[1]", "fit_size[1]"), f"render picks ({rb}, {re_}), rows announces ({wb}, {we}): rows must be the height of what render picks", stmt="rows/render: rows = height of the chosen size")
-    ck.ob("R1", rows_if, len(rows_if.body) == 1 and match_stmt("$$v = fit_size[1]", rows_if.body[0]) is not None, "rows (FIT) must announce the FIT height", stmt="rows[FIT]: fit_size[1]")
-    ck.ob("R1", flow, any(norm(s) == "size = (size[0], image._size[1])" for s in flow.body), "a flow render reports the height of the size just set", stmt="render[flow]: canvas height = image._size[1]")
-    ck.ob("R1", rd, any(isinstance(c, ast.Call) and call_name(c) == "UrwidImageCanvas" and [norm(a) for a in c.args] == ["render", "size", "image._size"] for c in body_walk(rd)), "the canvas must record the image size it was rendered with", stmt="render: UrwidImageCanvas(render, size, image._size)")
+    ck.ob("R1", flow, any(isinstance(s, ast.Assign) and norm(s.targets[0]) == "size" and norm(_e0(trace(rd, s.value))) in ("(size[0], self._ti_image._size[1])",) for s in flow.body), "a flow render reports the height of the size just set", stmt="render[flow]: canvas height = image._size[1]")
+    ck.ob("R1", rd, any(isinstance(c, ast.Call) and call_name(c) == "UrwidImageCanvas" and len(c.args) == 3 and norm(c.args[1]) == "size" and norm(trace(rd, c.args[2])) == "self._ti_image._size" for c in body_walk(rd)), "the canvas must record the image size it was rendered with", stmt="render: UrwidImageCanvas(render, size, image._size)")
 
     # ---- R2 ----------------------------------------------------------------------------
     ct = m.get(UW, "UrwidImageCanvas.content")
@@ -57,17 +95,51 @@ def run(ck, m):
     ys = [n for n in walk_local(text_if) if isinstance(n, ast.Yield) and isinstance(n.value, ast.List) and len(n.value.elts) >= 4]
     ck.expect(len(ys) == 1, "content: the image-row yield not found")
     if ys:
-        order = [norm(e.value) if isinstance(e, ast.Starred) else norm(e) for e in ys[0].value.elts]
+        def role(e):
+            t_ = norm(trace(ct, e.value if isinstance(e, ast.Starred) else e, keep=("size", "image_size")))
+            if "SGR_DEFAULT_b" in t_:
+                return "color_reset"
+            key = "b' ' * self._ti_calc_trim(size[0]"
+            k = t_.find(key)
+            if k >= 0:
+                i, depth = k + len("b' ' * self._ti_calc_trim"), 0
+                while i < len(t_):
+                    depth += t_[i] == "("
+                    depth -= t_[i] == ")"
+                    i += 1
+                    if depth == 0:
+                        break
+                idx = t_[i:i + 3]
+                return {"[0]": "left_padding", "[3]": "right_padding"}.get(idx, "image_line")
+            if t_.replace(" ", "") in ("((None,'U',b'\\x00\\x00'),)", "(None,'U',b'\\x00\\x00')"):
+                return "last_row_workaround"
+            return "image_line"
+        order = [role(e) for e in ys[0].value.elts]
         ck.ob("R2", enclosing_stmt(ys[0]), order == ["left_padding", "image_line", "color_reset", "right_padding", "last_row_workaround"],
               f"row assembly order must be left padding, image, colour reset, right padding, workaround (the reset sits between the image cells and the right padding so colours never bleed into it); found {order}", stmt="content: row assembly order")
-    il = next((s for s in walk_local(text_if) if isinstance(s, ast.Assign) and norm(s.targets[0]) == "image_line" and isinstance(s.value, ast.IfExp)), None)
-    ck.ob("R2", il or text_if, il is not None and norm(il.value.body) == "(*first_color, (None, 'U', image_line))", "the recovered first colour must precede the image cells", stmt="content: first colour before the image cells")
-    scan = next((n for n in walk_local(text_if) if isinstance(n, ast.For) and norm(n.target) == "cell"), None)
-    ck.ob("R2", scan or text_if, scan is not None and norm(scan.iter) == "line[trim_image_left - 1::-1]", f"the first colour must be searched backwards from the cut; found `{norm(scan.iter) if scan else None}`", stmt="content: backward scan from the cut")
-    fc = next((s for s in walk_local(text_if) if isinstance(s, ast.Assign) and norm(s.targets[0]) == "first_color" and "cell" in norm(s.value)), None)
-    ck.ob("R2", fc or text_if, fc is not None and "cell[:cell.rindex(b'm') + 1]" in norm(fc.value),
+    # the image element of a row: `(*<recovered colour>, (None, 'U', <visible cells>))`
+    img_el = None
+    if ys:
+        for e in ys[0].value.elts:
+            if role(e) == "image_line":
+                img_el = e.value if isinstance(e, ast.Starred) else e
+    tups = [n for n in ast.walk(trace(ct, img_el, keep=("size", "image_size"))) if isinstance(n, ast.Tuple) and len(n.elts) == 2 and isinstance(n.elts[0], ast.Starred)] if img_el is not None else []
+    if not tups:   # the element is bound in several branches: look at the bindings of that name
+        nm_ = img_el.id if isinstance(img_el, ast.Name) else None
+        tups = [n for st_ in walk_local(text_if) if isinstance(st_, ast.Assign) and nm_ and norm(st_.targets[0]) == nm_ for n in ast.walk(st_.value) if isinstance(n, ast.Tuple) and len(n.elts) == 2 and isinstance(n.elts[0], ast.Starred)]
+    ck.ob("R2", text_if, bool(tups) and all(match_expr("(None, 'U', $x)", t_.elts[1]) is not None for t_ in tups), "the recovered first colour must precede the image cells", stmt="content: first colour before the image cells")
+    scan, cv = None, "cell"
+    for n in walk_local(text_if):
+        if isinstance(n, ast.For) and isinstance(n.target, ast.Name) and match_expr("$l[trim_image_left - 1::-1]", n.iter) is not None:
+            scan, cv = n, n.target.id
+    cand = [n for n in walk_local(text_if) if isinstance(n, ast.For) and isinstance(n.target, ast.Name) and any(isinstance(x, ast.If) and "startswith(ESC_b)" in norm(x.test) for x in n.body)]
+    ck.ob("R2", (cand[0] if cand else text_if), scan is not None, f"the first colour must be searched backwards from the cut; found `{norm(cand[0].iter) if cand else None}`", stmt="content: backward scan from the cut")
+    scan = scan or (cand[0] if cand else None)
+    cv = scan.target.id if scan is not None else cv
+    fc = next((s_ for s_ in (walk_local(scan) if scan is not None else []) if isinstance(s_, ast.Assign) and cv in norm(s_.value)), None)
+    ck.ob("R2", fc or text_if, fc is not None and f"{cv}[:{cv}.rindex(b'm') + 1]" in norm(fc.value),
           f"the recovered prefix must extend to the LAST 'm' of the cell (a cell may carry several sequences, e.g. background and foreground); found `{short(fc.value, 60) if fc else None}`", stmt="content: colour prefix up to the last 'm'")
-    ck.ob("R2", scan or text_if, scan is not None and any(isinstance(s, ast.If) and norm(s.test) == "cell.startswith(ESC_b)" for s in scan.body), "only cells that start a colour run carry the colour", stmt="content: cells starting with ESC")
+    ck.ob("R2", scan or text_if, scan is not None and any(isinstance(s_, ast.If) and norm(s_.test) == f"{cv}.startswith(ESC_b)" for s_ in scan.body), "only cells that start a colour run carry the colour", stmt="content: cells starting with ESC")
     cr = next((s for s in walk_local(text_if) if isinstance(s, ast.Assign) and norm(s.targets[0]) == "color_reset"), None)
     ck.ob("R2", cr or text_if, cr is not None and "SGR_DEFAULT_b" in norm(cr.value) and norm(cr.value.test) == "image_size[0] > trim_image_right > 0", "a right cut inside the image must be followed by a colour reset", stmt="content: colour reset when the right cut is inside the image")
     loops = [n for n in text_if.body if isinstance(n, ast.For)]
@@ -82,20 +154,30 @@ def run(ck, m):
           stmt="content: no attribute of the live image is read")
     ini = m.get(UW, "UrwidImageCanvas.__init__")
     ck.ob("R3", ini, any(norm(s) == "self._ti_image_size = image_size" for s in ini.body), "the canvas must record the image size at construction", stmt="UrwidImageCanvas.__init__: records image_size")
-    for near, far, kind in (("pad_left", "pad_right", "horizontal"), ("pad_top", "pad_bottom", "vertical")):
-        blk = None
-        for n in walk_local(text_if):
-            if isinstance(n, ast.If) and n.orelse and any(match_stmt(f"{near} = pad // 2", s) is not None or norm(s).startswith(f"{near} =") or norm(s).startswith(f"{far} =") for s in n.orelse) and not isinstance(n.orelse[0], ast.If):
-                if any(norm(t) in (near, far) for s in n.orelse for t, _ in stores_in(s)):
-                    blk = n.orelse
-        ck.expect(blk is not None, f"content: centre branch of the {kind} padding split not found")
-        if blk is not None:
-            src = [norm(s) for s in blk]
-            ck.ob("R3", blk[0], src == [f"{near} = pad // 2", f"{far} = pad - {near}"],
-                  f"{kind} centre split must be {near} = pad // 2, {far} = pad - {near} (the odd cell goes to the far side, as _format_render placed it); found {src}", stmt=f"content: {kind} centre split")
-    fr = m.get(CM, "BaseImage._format_render")
-    s2 = norm(fr)
-    ck.ob("R3", fr, "left = ' ' * ((width - cols) // 2)" in s2 and "top = (height - lines) // 2" in s2, "_format_render (which produced the canvas text) puts the odd cell on the far side", stmt="_format_render: near = n // 2")
+    calls = [c for c in body_walk(ct) if isinstance(c, ast.Call) and (call_name(c) or "").endswith("_ti_calc_trim") and len(c.args) == 6]
+    ck.expect(len(calls) == 2, f"content: the two self._ti_calc_trim(...) calls (vertical, horizontal) not found ({len(calls)})")
+    for c in calls:
+        ax = norm(c.args[0])
+        kind, idx, av, a0, a1 = ("horizontal", 0, "h_align", "'<'", "'>'") if ax == "size[0]" else ("vertical", 1, "v_align", "'^'", "'_'")
+        ck.expect(ax in ("size[0]", "size[1]"), f"content: _ti_calc_trim axis argument `{ax}` not recognised")
+        KEEP = (av, "size", "image_size")
+        near_t, far_t = trace(ct, c.args[3], keep=KEEP), trace(ct, c.args[5], keep=KEEP)
+        P = f"size[{idx}] - image_size[{idx}]"
+        for facts, wn, wf, what in (({f"{av} == {a0}": True}, "0", P, "near-aligned: all padding on the far side"),
+                                    ({f"{av} == {a0}": False, f"{av} == {a1}": True}, P, "0", "far-aligned: all padding on the near side"),
+                                    ({f"{av} == {a0}": False, f"{av} == {a1}": False}, f"({P}) // 2", f"{P} - ({P}) // 2", "centred: near = pad // 2, far = pad - near (the odd cell goes to the far side, as _format_render placed it)")):
+            gn, gf = specialize(near_t, facts), specialize(far_t, facts)
+            undecided = [x for x in (gn, gf) if any(isinstance(n_, ast.IfExp) for n_ in ast.walk(x))]
+            ck.expect(not undecided, f"content: {kind} padding split not decided under {facts}: `{norm(gn)[:60]}` / `{norm(gf)[:60]}`")
+            if undecided:
+                continue
+            try:
+                ok = equal(gn, parse(wn)) and equal(gf, parse(wf))
+            except NotPoly:
+                ok = False
+            ck.ob("R3", enclosing_stmt(c), ok, f"content: {kind} padding, {what}; found near=`{norm(gn)[:50]}`, far=`{norm(gf)[:50]}`", stmt=f"content: {kind} split [{sorted(facts.items())}]")
+    from rules.c05 import rule_format_render
+    rule_format_render(ck, m, "R3")
 
 
 MUTANTS = [
